@@ -3,7 +3,7 @@ but that no property module examined (DESIGN.md §8: "the change sat in a helper
 
 dicts.resolve            R4.40 R16.40 R18.20   the default is handed out only for an absent path / a non-mapping parent; a stored None is returned
 dicts.ensure             R16.41 R18.21         parents are descended into, created only when missing, never overwritten; the leaf is set on the last level
-dicts.remove             R4.41 R16.42 R18.22   absent keys are no error; an emptied parent is dropped iff it `== {}` (never by truthiness)
+dicts.remove             R4.41 R16.42 R18.22   absent keys are no error; the key is deleted iff one segment remains; an emptied parent is dropped iff `== {}`
 dicts.cherrypick         R4.42                 every field is copied through the picker; an absent field skips that field only
 dicts.*MappingView       R4.43 R16.43 R8.41    views are live (source kept by reference), reads/writes go to `<path>.<key>` of the source
 patches/bodies wiring    R4.44 R16.44 R8.42    metadata/spec/status/labels/annotations accessors are views of exactly that stanza of the object itself
@@ -11,8 +11,10 @@ diffs.diff_iter          R4.45                 equal values yield nothing, decid
 diffs.reduce_iter/reduce R4.46                 narrowing a diff to a field: as-is / prefix stripped / re-diffed tails of old and new
 patches.Patch.__init__   R8.40 R3.40           transformation functions are inherited from a source Patch AND extended by `fns=`
 patches.Patch.__bool__   R8.43 R3.41           a patch is empty iff it has neither dict content nor transformation functions
-Patch.as_json_patch      R18.23 R8.44          every fn is applied to the copy the merge-patch went into; ops = diff(reference -> that copy)
-remove_empty_stanzas     R4.47                 emptied annotations/labels are dropped before the emptiness of metadata is judged
+Patch.as_json_patch      R18.23 R8.44          every fn is applied to the copy the merge-patch went into; ops = diff(reference -> that copy); the given body
+                                               is the reference (else the original); an empty patch needs no reference
+stanza cleaner           R4.47                 remove_empty_stanzas: emptied annotations/labels are dropped before the emptiness of metadata is judged, same key
+                                               in test and deletion; remove_annotations: rewrite whenever ANY key to remove is present
 DiffBaseStorage.build    R4.48 R16.45          the essence is a deep copy, in-place deletions touch only it; order of purge/restore/clean-up; ignored fields
 mark_key / make_keys     R16.46                marked iff ReplicaSet owned by a Deployment; marked iff a body is given; v2 always, v1 iff enabled
 storage constructors     R4.49 R16.47          constructor parameters reach the attributes the methods read (through the cooperative super() chain)
@@ -23,13 +25,13 @@ from __future__ import annotations
 import ast
 import itertools
 import re
-from typing import Any, Callable, Iterable, Optional
+from typing import Any, Iterable, Optional
 
 from .. import absint
 from ..core import Ctx
 from ..rules import (calls_in, cfg_of, cond_implies, construct, dominating_conditions, holds_at, is_call_to, kwarg, loop_nodes, norm,
                      origin, table_check)
-from ..srcmodel import AnalysisError, FuncInfo, Repo, dotted, src, walk_no_defs
+from ..srcmodel import AnalysisError, FuncInfo, Repo, dotted, walk_no_defs
 
 DICTS = 'kopf._cogs.structs.dicts'
 DIFFS = 'kopf._cogs.structs.diffs'
